@@ -68,6 +68,9 @@ DMETORBF = "tangelo/problem_decomposition/dmet/_helpers/dmet_orbitals.py"
 IQPEF = "tangelo/algorithms/projective/iqpe.py"
 QPEF2 = "tangelo/algorithms/projective/qpe.py"
 
+TSUF = "tangelo/toolboxes/unitary_generator/trotter_suzuki.py"
+QCCF = "tangelo/toolboxes/ansatz_generator/qcc.py"
+
 FIRE = [
     # ---- C11
     ("trim-keeps-old-index-set", "C11", [(CIRC, "        self._qubit_indices = set(range(len(qubits_in_use)))\n", "")], "K2.class-invariant"),
@@ -298,6 +301,18 @@ FIRE = [
     ("reindex-accepts-duplicates", "C11", [(CIRC, " or len(set(new_indices)) != len(new_indices):\n            raise ValueError(\"The new indices must be distinct non-negative integers\")", ":\n            raise ValueError(\"The new indices must be distinct non-negative integers\")")], "K6.gate-validation"),
     ("qpe-register-not-reversed", "C20", [(QPEF2, "        self.qpe_qubit_list = list(reversed(range(qft_start, qft_start+self.n_qpe_qubits)))", "        self.qpe_qubit_list = list(range(qft_start, qft_start+self.n_qpe_qubits))")], "K9.qpe-register"),
     ("qpe-powers-descending", "C20", [(QPEF2, "            self.circuit += self.unitary.build_circuit(2**i, control=qubit)", "            self.circuit += self.unitary.build_circuit(2**(self.n_qpe_qubits-1-i), control=qubit)")], "K9.qpe-register"),
+    # ---- rules added in wave 4
+    ("cirq-measure-only-when-saved", "C02", [(TCIRQ, "            key = str(measure_count) if save_measurements else None\n            target_circuit.append(GATE_CIRQ[gate_name](qubit_list[gate.target[0]], key=key))", "            if save_measurements:\n                target_circuit.append(GATE_CIRQ[gate_name](qubit_list[gate.target[0]], key=str(measure_count)))")], "K3.no-silent-drop"),
+    ("cirq-measure-only-when-saved-translator", "C01", [(TCIRQ, "            key = str(measure_count) if save_measurements else None\n            target_circuit.append(GATE_CIRQ[gate_name](qubit_list[gate.target[0]], key=key))", "            if save_measurements:\n                target_circuit.append(GATE_CIRQ[gate_name](qubit_list[gate.target[0]], key=str(measure_count)))")], "K3.no-silent-drop"),
+    ("sympy-t-gate-pi-over-eight", "C01", [(TSYM, "    GATE_SYMPY[\"T\"] = SYMPYGate.TGate", "    from sympy import pi\n    GATE_SYMPY[\"T\"] = lambda target: p_gate(target, pi / 8)")], "K9.sympy-gates"),
+    ("trotter-unitary-order-and-steps-swapped", "C06", [(TSUF, "            return trotterize(self.qubit_hamiltonian, self.time*n_steps, self.n_trotter_steps, self.trotter_order, control=control)", "            return trotterize(self.qubit_hamiltonian, self.time*n_steps, self.trotter_order, self.n_trotter_steps, control=control)")], "K7.swapped-arguments"),
+    ("time-dictionary-first-order-only", "C06", [(AU, "            timedict_pauli_words = [(term, coeff*time[term]) for term, coeff in pauli_words]\n            timed_pauli_words = recursive_trotter_suzuki_decomposition(timedict_pauli_words, trotter_order, 1.)", "            timed_pauli_words = [(term, np.real(coeff)*time[term]) for term, coeff in pauli_words]")], "K8.time-dictionary"),
+    ("qcc-mean-field-block-follows-the-vector", "C07", [(QCCF, "        self.var_params = initial_var_params\n        return initial_var_params", "        self.var_params = initial_var_params\n        self.qmf_var_params = initial_var_params[:self.n_qmf_params]\n        return initial_var_params")], "K8.update-equals-rebuild"),
+    ("uccgd-update-skipped-for-stored-vector", "C07", [(UCCGDF, "        self.set_var_params(var_params)\n\n        qubit_op = self._get_qubit_operator()\n        qu_op_dict = qubit_op.terms", "        if self.var_params is not None and np.array_equal(var_params, self.var_params):\n            return\n\n        self.set_var_params(var_params)\n\n        qubit_op = self._get_qubit_operator()\n        qu_op_dict = qubit_op.terms")], "K8.update-equals-rebuild"),
+    ("scbk-reorder-sized-from-operator", "C05", [(SCBK, "        fermion_operator = reorder(fermion_operator, up_then_down_order, num_modes=n_spinorbitals)", "        fermion_operator = reorder(fermion_operator, up_then_down_order)")], "K7.register-size"),
+    ("scbk-reorder-sized-from-operator-encoding", "C03", [(SCBK, "        fermion_operator = reorder(fermion_operator, up_then_down_order, num_modes=n_spinorbitals)", "        fermion_operator = reorder(fermion_operator, up_then_down_order)")], "K7.register-size"),
+    ("bk-state-encoder-writes-into-its-argument", "C05", [(SV, "    mat = bravyi_kitaev_code(len(vector)).encoder.toarray()\n    vector_bk = np.mod(np.dot(mat, vector), 2)", "    vector_bk = np.asarray(vector, dtype=int)\n    for j in range(len(vector_bk)):\n        parent = j | (j + 1)\n        if parent < len(vector_bk):\n            vector_bk[parent] ^= vector_bk[j]")], "K1.vector-inputs"),
+    ("cirq-dephased-path-ignores-initial-state", "C10", [(TGCIRQ, "            sim = cirq_simulator.simulate(translated_circuit, initial_state=cirq_initial_statevector)", "            sim = cirq_simulator.simulate(translated_circuit)")], "K7.initial-state"),
 ]
 
 SILENT = [
@@ -403,4 +418,9 @@ SILENT = [
     ("dmet-uhf-split-closed-form", "C15", [(DMETORBF, "        elec_diff = self.mol_full.spin\n        elec_paired = self.number_active_electrons-elec_diff\n        orbital_paired = elec_paired // 2", "        elec_diff = self.mol_full.spin\n        orbital_paired = (self.number_active_electrons - elec_diff) // 2")]),
     ("iqpe-feedback-halving", "C20", [(IQPEF, "                self.phase += 1/2**(self.bitplace)", "                self.phase += 0.5**(self.bitplace)")]),
     ("qpe-powers-by-shift", "C20", [(QPEF2, "            self.circuit += self.unitary.build_circuit(2**i, control=qubit)", "            self.circuit += self.unitary.build_circuit(1 << i, control=qubit)")]),
+    # ---- rules added in wave 4
+    ("sympy-s-gate-as-phase-pi-over-two", "C01", [(TSYM, "    GATE_SYMPY[\"S\"] = SYMPYGate.PhaseGate", "    from sympy import pi\n    GATE_SYMPY[\"S\"] = lambda target: p_gate(target, pi / 2)")]),
+    ("cirq-measure-key-branches", "C02", [(TCIRQ, "            key = str(measure_count) if save_measurements else None\n            target_circuit.append(GATE_CIRQ[gate_name](qubit_list[gate.target[0]], key=key))", "            if save_measurements:\n                target_circuit.append(GATE_CIRQ[gate_name](qubit_list[gate.target[0]], key=str(measure_count)))\n            else:\n                target_circuit.append(GATE_CIRQ[gate_name](qubit_list[gate.target[0]], key=None))")]),
+    ("trotter-unitary-keyword-call", "C06", [(TSUF, "            return trotterize(self.qubit_hamiltonian, self.time*n_steps, self.n_trotter_steps, self.trotter_order, control=control)", "            return trotterize(self.qubit_hamiltonian, self.time*n_steps, trotter_order=self.trotter_order, n_trotter_steps=self.n_trotter_steps, control=control)")]),
+    ("bk-state-encoder-copies-first", "C05", [(SV, "    mat = bravyi_kitaev_code(len(vector)).encoder.toarray()\n    vector_bk = np.mod(np.dot(mat, vector), 2)", "    vector_bk = np.array(vector, dtype=int)\n    for j in range(len(vector_bk)):\n        parent = j | (j + 1)\n        if parent < len(vector_bk):\n            vector_bk[parent] ^= vector_bk[j]")]),
 ]
